@@ -30,6 +30,8 @@ CONFIGS = {
     'graph-noserde': (['-p', 'pie_graph', '--no-default-features'], ['pie_graph']),
     # the engine self-check crate (/verif/fixtures/engine_fixture)
     'fixture': ([], ['engine_fixture']),
+    # the hashlink dependency itself (driver as RUSTC_WRAPPER, only hashlink dumped): re-derivation of the re-linking API table
+    'hashlink': (['-p', 'pie_graph'], ['hashlink']),
 }
 
 
@@ -98,13 +100,18 @@ def run_extract(repo, config, out_dir, target_dir=None, keep_target=False):
         'PIE_FACTS_DIR': out_dir,
         'LD_LIBRARY_PATH': os.path.join(sysroot(), 'lib') + ':' + env.get('LD_LIBRARY_PATH', ''),
         'RUSTFLAGS': '-Zmir-opt-level=0 -Awarnings',
-        'RUSTC_WORKSPACE_WRAPPER': DRIVER,
         'CARGO_TARGET_DIR': target_dir,
         'CARGO_NET_OFFLINE': 'true',
     })
     if os.environ.get('PIE_EXTRACT_JOBS'):
         env['CARGO_BUILD_JOBS'] = os.environ['PIE_EXTRACT_JOBS']
     env.pop('RUSTC_WRAPPER', None)
+    env.pop('RUSTC_WORKSPACE_WRAPPER', None)
+    if config == 'hashlink':
+        env['RUSTC_WRAPPER'] = DRIVER
+        env['PIE_FACTS_ONLY'] = 'hashlink'
+    else:
+        env['RUSTC_WORKSPACE_WRAPPER'] = DRIVER
     try:
         r = subprocess.run(['cargo', '+nightly', 'check', '--offline'] + args, cwd=repo, env=env,
                            stdout=subprocess.PIPE, stderr=subprocess.STDOUT, text=True)
